@@ -284,7 +284,8 @@ class FlatSet : private Compare {
   template <class K, typename std::enable_if<!std::is_same<T, K>::value && has_is_transparent<Compare>::value,
                                              bool>::type = true>
   size_type count(const K &k) const {
-    return contains(k);
+    // A key of another type may be equivalent to several elements (as for std::set::count)
+    return static_cast<size_type>(upper_bound(k) - lower_bound(k));
   }
 #endif
 
